@@ -354,6 +354,11 @@ def _gen_op(rng, spec, axis):
     if r < 0.4:
         keep = [i for i in ids if rng.random() < 0.5]
         rng.shuffle(keep)
+        if keep and rng.random() < 0.3:
+            # an id named more than once; half of the time exactly as many names as the axis has ids
+            n_rep = (len(ids) - len(keep)) if rng.random() < 0.5 else rng.randint(1, 3)
+            for _ in range(max(n_rep, 0)):
+                keep.insert(rng.randint(0, len(keep)), rng.choice(keep))
         if rng.random() < 0.12:
             # an unknown id: unrelated, or an extension / prefix / case variant of a real one
             base = rng.choice(ids)
@@ -424,6 +429,14 @@ def layout_sweep(rng):
                 ids = spec['oids'] if axis == 'observation' else spec['sids']
                 yield {'kind': 'ids', 'spec': spec, 'axis': axis, 'keep': ids[1:][::-1], 'invert': False,
                        'inplace': rng.random() < 0.5, 'ctype': 'list'}
+                if lay in (['csr_unsorted'], ['csc']) and len(ids) >= 2:
+                    # repeated names, as many names as the axis has ids (and one more / one fewer), every container
+                    for ctype in ('list', 'tuple', 'array'):
+                        for keep in ([ids[-1]] * len(ids), [ids[-1], ids[0]] + [ids[-1]] * (len(ids) - 2),
+                                     [ids[0]] * (len(ids) + 1), [ids[0]] * (len(ids) - 1)):
+                            for inv in (False, True):
+                                yield {'kind': 'ids', 'spec': spec, 'axis': axis, 'keep': keep, 'invert': inv,
+                                       'inplace': ctype == 'tuple', 'ctype': ctype}
                 yield {'kind': 'remove_empty', 'spec': spec, 'axis': axis, 'inplace': False}
 
 
